@@ -62,6 +62,12 @@ structure Frame where
   payload : Bytes      -- unmasked
   deriving Repr, BEq, DecidableEq
 
+/-- the length fits the length form (`struct.pack` would raise otherwise), the bit fields fit their bits -/
+def extOk (ext n : Nat) : Prop :=
+  (ext = 0 ∧ n < 126) ∨ (ext = 1 ∧ n < 65536) ∨ (ext = 2 ∧ n < 18446744073709551616)
+
+def Frame.wf (f : Frame) : Prop := f.rsv < 8 ∧ f.opcode < 16 ∧ extOk f.ext f.payload.length
+
 /-- the length form `_write_frame` chooses -/
 def minExt (n : Nat) : Nat := if n < 126 then 0 else if n ≤ 0xFFFF then 1 else 2
 
@@ -222,28 +228,30 @@ def tooBig (cfg : Cfg) (st : State) (opcode len : Nat) : Bool :=
 
 def be16 (n : Nat) : Bytes := be2 n
 
+/-- the opcode dispatch of `_handle_message` (after decompression) -/
+def deliver (st : State) (opcode : Nat) (d : Bytes) : State × List Event :=
+  if opcode = 1 then
+    if validUtf8 d then (st, [.message true d]) else abortWith st .plain
+  else if opcode = 2 then (st, [.message false d])
+  else if opcode = 8 then
+    let code := match d with
+      | a :: b :: _ => some (a * 256 + b)
+      | _ => none
+    let reason := d.drop 2
+    if validUtf8 reason then ({ st with status := .closed }, [.close code reason])
+    else ({ st with status := .crashed }, [.uncaught])
+  else if opcode = 9 then (st, [.ping d])
+  else if opcode = 10 then (st, [.pong d])
+  else abortWith st .plain
+
 /-- `_handle_message(opcode, data)` -/
 def handle (cfg : Cfg) (st : State) (opcode : Nat) (data : Bytes) : State × List Event :=
-  let go (st : State) (d : Bytes) : State × List Event :=
-    if opcode = 1 then
-      if validUtf8 d then (st, [.message true d]) else abortWith st .plain
-    else if opcode = 2 then (st, [.message false d])
-    else if opcode = 8 then
-      let code := match d with
-        | a :: b :: _ => some (a * 256 + b)
-        | _ => none
-      let reason := d.drop 2
-      if validUtf8 reason then ({ st with status := .closed }, [.close code reason])
-      else ({ st with status := .crashed }, [.uncaught])
-    else if opcode = 9 then (st, [.ping d])
-    else if opcode = 10 then (st, [.pong d])
-    else abortWith st .plain
   if st.compressed && !isCtl opcode then
     match cfg.decomp st.dhist data with
-    | .ok d => go { st with dhist := st.dhist ++ [data] } d
+    | .ok d => deliver { st with dhist := st.dhist ++ [data] } opcode d
     | .tooLarge => abortWith { st with dhist := st.dhist ++ [data] } .bigAfter
     | .error => ({ st with status := .crashed, dhist := st.dhist ++ [data] }, [.uncaught])
-  else go st data
+  else deliver st opcode data
 
 /-- the part of `_receive_frame` after the payload has been read -/
 def dispatch (cfg : Cfg) (st : State) (fin : Bool) (opcode : Nat) (data : Bytes) : State × List Event :=
